@@ -1,5 +1,6 @@
 import PyTrie.Lemmas.WorldBatch
 import PyTrie.Lemmas.WorldBatchCex
+import PyTrie.Lemmas.WorldBatchNP
 /-! # C05 / C06 — `squash_changes` on a pruning trie is all-or-nothing and keeps pruning exact
 (companion of `Props/C05.lean`, proved after the first round)
 
@@ -45,5 +46,37 @@ theorem batch_commit_exact (Hs : Hashing) (blankRootHash : Hash) (w : World) (b 
     (w'.tries[b.outer]!).tree = b.trie.tree ∧ (w'.tries[b.outer]!).root = b.trie.root ∧
     PruneInv Hs blankRootHash (w'.tries[b.outer]!) (w'.opSt b.outer) :=
   batchEnd_pruneInv Hs blankRootHash w b hb hi hic hop hfa hinv
+
+/-! ## Non-pruning outer trie
+
+The batch trie is a pruning trie over a ScratchDB whose counts start empty although the wrapped database
+`base0` is not. `BatchInvNP` tracks exactness only for hashes that are not keys of `base0`. -/
+
+theorem np_batch_begin (Hs : Hashing) (blankRootHash : Hash) (base0 : Dict Bytes) (T : TrieSt)
+    (hroot : if isBlank T.tree then T.root = blankRootHash else T.root = Hs.hashOf T.tree ∧ T.root ≠ blankRootHash)
+    (hkeys : ∀ h, 0 < occRoot Hs T.tree h → Dict.contains base0 h = true) (fa : Option Nat) :
+    BatchInvNP Hs blankRootHash base0 { T with prune := true }
+      { store := { base := base0, cache := some [], failAfter := fa }, counts := [], pending := [] } :=
+  batchInvNP_begin Hs blankRootHash base0 T hroot hkeys fa
+
+theorem np_batch_op (Hs : Hashing) (blankRootHash : Hash) (base0 : Dict Bytes) (T : TrieSt) (hc : Canon T.tree) (key : Bytes)
+    (val : Option Bytes) (s : OpSt) (hinv : BatchInvNP Hs blankRootHash base0 T s)
+    (hrs : RefSound Hs T.tree (nibs key))
+    (hblank : isBlank (opTree Hs T key val).1 = false → Hs.hashOf (opTree Hs T key val).1 ≠ blankRootHash) :
+    ∃ T', (opSetDel Hs blankRootHash T key val s).2 = .ok T' ∧
+      T'.tree = (opTree Hs T key val).1 ∧
+      BatchInvNP Hs blankRootHash base0 T' (opSetDel Hs blankRootHash T key val s).1 :=
+  opSetDel_batchInvNP Hs blankRootHash base0 T hc key val s hinv hrs hblank
+
+/-- **committed block on a non-pruning trie**: nothing pre-existing is removed, every node needed for the new
+    root is present, and every key that was added is a node of the new tree — no node that served only
+    intermediate states of the block is added -/
+theorem np_batch_commit (Hs : Hashing) (blankRootHash : Hash) (base0 : Dict Bytes) (T : TrieSt) (s : OpSt)
+    (hinv : BatchInvNP Hs blankRootHash base0 T s) (c : Dict (Option Bytes)) (hcache : s.store.cache = some c) :
+    let db' := (commitLoop false c base0 none).2.1
+    (∀ h, Dict.contains base0 h = true → Dict.contains db' h = true) ∧
+    (∀ h, 0 < occRoot Hs T.tree h → Dict.contains db' h = true) ∧
+    (∀ h, Dict.contains db' h = true → Dict.contains base0 h = false → 0 < occRoot Hs T.tree h) :=
+  batch_commit_np Hs blankRootHash base0 T s hinv c hcache
 
 end PyTrie.Props.C05
